@@ -19,7 +19,7 @@ from harness import gq, gen, implrun
 HEADER = """Require Import List ZArith QArith String.
 From PV.DSL Require Import Syntax.
 From PV.Gen Require Import Algorithms_gen.
-From PV.Alg Require Import SemExec TruncTie TruncTieNH.
+From PV.Alg Require Import SemExec TruncTie TruncTieNH TruncTieTB.
 Import ListNotations.
 Open Scope string_scope.
 """
@@ -93,7 +93,11 @@ def coq_inputs_term(case, series):
                    ";".join("true" if x else "false" for x in cb),
                    ";".join(cg(e) for e in El), sols))
     if tb:
-        return None
+        # two-block optimisation: side conditions of C01_tie_conclusions_two_block
+        tabs = (";".join(str(b) for b in bl), ";".join("[" + ";".join("true" if x else "false" for x in r) + "]" for r in K),
+                ";".join("true" if x else "false" for x in cb))
+        return ("(inputs_ok %d %d %d [%s]%%nat [%s] [%s] [%s]%%Q (%s)%%Q && tb_ok %d [%s]%%nat [%s] [%s])"
+                % ((D, case["nparam"], case["N"]) + tabs + (";".join(cg(e) for e in El), sols, D) + tabs))
     return ("(inputs_ok %d %d %d [%s]%%nat [%s] [%s] [%s]%%Q (%s)%%Q)"
             % (D, case["nparam"], case["N"], ";".join(str(b) for b in bl),
                ";".join("[" + ";".join("true" if x else "false" for x in r) + "]" for r in K),
@@ -155,7 +159,7 @@ def tie_semeq(ctx, hermitian=True, ncases=None, N=None):
         badset = set(bad)
         applies = sum(1 for j, ci in enumerate(iidx) if j not in ibad and ci not in badset)
         if hermitian:
-            sigs["C01_tie_conclusions applies (check_alg && inputs_ok)"] = "%d of %d general-wiring cases" % (applies, len(iterms))
+            sigs["C01_tie_conclusions(_two_block) applies (check_alg && inputs_ok [&& tb_ok])"] = "%d of %d cases" % (applies, len(iterms))
         else:
             sigs["C05_tie_conclusions applies (check_alg)"] = "%d of %d cases" % (len(cases) - len(badset), len(cases))
             sigs["C05_tie_similarity_partial applies (check_alg && nh_inputs_ok: kept pairs have equal energies)"] = "%d of %d cases" % (applies, len(iterms))
